@@ -353,6 +353,33 @@ func c01Oracle(e *Env, rg *Rig, spies []*c01Spy, order []int, closeErr error, cl
 			}
 		}
 	}
-	// ---- RTCP written by the application passes through
+	// ---- RTCP written by the application passes through: once, unchanged, and the caller's batch is left alone
 	_ = has
+	for _, a := range rg.AppRTCP {
+		e.Check()
+		var outs []*rigRTCPOut
+		for _, o := range rg.RTCPOut {
+			if o.app && o.gid == a.gid && o.step >= a.enter && o.step <= a.ret {
+				outs = append(outs, o)
+			}
+		}
+		if a.ret == 1<<60 {
+			continue // still inside the call at the end of the run (reported as stranded elsewhere)
+		}
+		if !bytes.Equal(a.before, a.after) {
+			e.Violatef("oracle", "c01:rtcp-batch-modified", "the RTCP batch the application wrote was modified in place by %v (marshals to %x before the call, %x after)", cfg.Kinds, a.before, a.after)
+		}
+		if len(outs) != 1 {
+			e.Violatef("oracle", "c01:rtcp-write-count", "an RTCP batch written by the application reached the next RTCP writer %d times through %v", len(outs), cfg.Kinds)
+			continue
+		}
+		o := outs[0]
+		if !bytes.Equal(o.raw, a.before) {
+			e.Violatef("oracle", "c01:rtcp-write-altered", "the application wrote RTCP %x, the next RTCP writer received %x through %v", a.before, o.raw, cfg.Kinds)
+		}
+		if o.err != (a.err != nil) || (a.err != nil && !errors.Is(a.err, errInjected)) {
+			e.Violatef("oracle", "c01:rtcp-write-result", "the next RTCP writer failed=%v, Write returned %v", o.err, a.err)
+		}
+		e.Probe("app_rtcp_checked")
+	}
 }
